@@ -25,7 +25,7 @@ from typing import (
 
 import kiwipy
 
-from . import lang, mixins, persistence, process_states, processes
+from . import futures, lang, mixins, persistence, process_states, processes
 from .utils import PID_TYPE, SAVED_STATE_TYPE
 
 __all__ = ['ToContext', 'WorkChain', 'WorkChainSpec', 'if_', 'return_', 'while_']
@@ -99,6 +99,10 @@ class Waiting(process_states.Waiting):
         key = self._awaiting.pop(awaitable)
         try:
             self.process.ctx[key] = awaitable.result()  # type: ignore
+        except asyncio.CancelledError:
+            # A cancelled awaitable is a failed one.  asyncio's CancelledError is not an Exception (it would escape into the
+            # loop and the workchain would wait for ever): pass the failure on as the CancelledError that is one
+            self._wake_up(exception=futures.CancelledError(f"the awaitable assigned to '{key}' was cancelled"))
         except Exception as exception:
             self._wake_up(exception=exception)
         else:
